@@ -20,19 +20,20 @@ theorem run_J (c : Cfg) (e0 : Nat → Bool) (δ : Nat) (as : List Action) (s s' 
       · exact step_J c e0 δ s s1 a hv hit hio hok hnr.1 h hs1
       · exact Or.inr (died_step c s s1 a hs1 h)
 
-/-- `_try_put_index` outside `next()` (priming). -/
-theorem tryPut_J (c : Cfg) (e0 : Nat → Bool) (δ : Nat) (s : State) (g : Ghost) (dl : List Nat)
-    (hit : c.iterable = true) (hio : c.inOrder = true) (hJ : JX c e0 δ s g dl) (hns : Obs.stop ∉ s.obs)
-    (hroom : cntZ none (zipZ s.info dl) + 1 ≤ c.W * c.P) :
+/-- `_try_put_index` outside `next()` (priming); the liveness witness is produced, not needed. -/
+theorem tryPut_J0 (c : Cfg) (e0 : Nat → Bool) (δ : Nat) (s : State) (g : Ghost) (dl : List Nat)
+    (hit : c.iterable = true) (hio : c.inOrder = true) (hm : MidI c s g none)
+    (ho : ObsRel (dataItems c (g.h.take s.rcvdIdx)) (taskObs s.obs))
+    (hsw : SWk c s (zipZ s.info dl) none 0) (hdl : dl.length = s.sendIdx) (hkf : KF c s g.h dl)
+    (hks : KS c e0 δ s.wsnaps s.snap s.numYielded (livePairs c (g.h.take s.rcvdIdx)))
+    (hns : Obs.stop ∉ s.obs) (hroom : cntZ none (zipZ s.info dl) + 1 ≤ c.W * c.P) :
     ∃ g' dl', JX c e0 δ (tryPut c s) g' dl' := by
-  obtain ⟨hm, ho, hl, hf⟩ := hJ.wi
   obtain ⟨g', hg', _, _, hh, hl'⟩ := MidI_tryPut c s g none hit hio hm
-  obtain ⟨dl', hd1, hd2, hd3, hd4, _, _, _⟩ := KX_tryPut c s g.h dl none 0 hit hJ.sw hJ.dlen hJ.kf hroom
+  obtain ⟨dl', hd1, hd2, hd3, hd4, _, _, _⟩ := KX_tryPut c s g.h dl none 0 hit hsw hdl hkf hroom
   have hc := tryPut_sameCore c s
   have hn : s.rcvdIdx ≤ g.h.length := by rw [hm.hlen]; have := hm.len; omega
   have htk : g'.h.take s.rcvdIdx = g.h.take s.rcvdIdx := take_of_prefix g.h g'.h _ hn hh
   have hdll : dl'.length ≤ g.h.length + 1 := by
-    have h1 := hJ.dlen
     have h2 := hm.hlen
     rcases hd1 with rfl | rfl
     · omega
@@ -40,7 +41,13 @@ theorem tryPut_J (c : Cfg) (e0 : Nat → Bool) (δ : Nat) (s : State) (g : Ghost
   refine ⟨g', dl', ⟨hg', ?_, hl', ?_⟩, hd3, hd2, KF_h' c _ g.h g'.h dl' hdll hh hd4, ?_⟩
   · rw [hc.rcvdIdx, hc.obs, htk]; exact ho
   · intro hst; rw [hc.obs] at hst; exact absurd hst hns
-  · rw [hc.wsnaps, hc.snap, hc.numYielded, hc.rcvdIdx, htk]; exact hJ.ks
+  · rw [hc.wsnaps, hc.snap, hc.numYielded, hc.rcvdIdx, htk]; exact hks
+
+theorem tryPut_J (c : Cfg) (e0 : Nat → Bool) (δ : Nat) (s : State) (g : Ghost) (dl : List Nat)
+    (hit : c.iterable = true) (hio : c.inOrder = true) (hJ : JX c e0 δ s g dl) (hns : Obs.stop ∉ s.obs)
+    (hroom : cntZ none (zipZ s.info dl) + 1 ≤ c.W * c.P) :
+    ∃ g' dl', JX c e0 δ (tryPut c s) g' dl' :=
+  tryPut_J0 c e0 δ s g dl hit hio hJ.wi.1 hJ.wi.2.1 hJ.sw hJ.dlen hJ.kf hJ.ks hns hroom
 
 theorem prime_J (c : Cfg) (e0 : Nat → Bool) (δ : Nat) (n : Nat) (s : State) (g : Ghost) (dl : List Nat)
     (hit : c.iterable = true) (hio : c.inOrder = true) (hJ : JX c e0 δ s g dl) (hns : Obs.stop ∉ s.obs)
@@ -59,5 +66,111 @@ theorem prime_J (c : Cfg) (e0 : Nat → Bool) (δ : Nat) (n : Nat) (s : State) (
     have hs := tryPut_sendIdx_le c s
     have hc := tryPut_sameCore c s
     exact ih (tryPut c s) g1 dl1 h1 (by rw [hc.obs]; exact hns) (by rw [hc.rcvdIdx]; omega)
+
+/-- A quiescent start state: `K` tasks dispatched and consumed (none for a fresh iterator, the virtual past of
+a restored one), nothing in flight, every worker `w` after `T w` fetches, cycle pointer at `a`. -/
+structure Base (c : Cfg) (s : State) (K a : Nat) (T : Nat → Nat) : Prop where
+  se : s.sendIdx = K
+  rc : s.rcvdIdx = K
+  inf : s.info = []
+  st : s.status = List.replicate c.W true
+  cy : s.cyc = a
+  wl : s.workers.length = c.W
+  wk : ∀ (w : Nat) (k : Worker), s.workers[w]? = some k → k.q = [] ∧ k.pos = T w ∧ k.iterEnd = false
+  rq : s.resQ = []
+  ms : s.mainSnaps = []
+  sd : s.shutdown = false
+  ph : s.phase = .idle
+
+/-- The ghost of a quiescent start state: a complete round-robin history up to the pointer `(ρ, a)` in which
+every task was a data task. -/
+structure BaseG (c : Cfg) (h0 : List Nat) (ρ a : Nat) (T : Nat → Nat) : Prop where
+  alt : a < c.W
+  own : ∀ (i w : Nat), h0[i]? = some w → w < c.W
+  cnt : ∀ w, w < c.W → h0.count w = T w
+  tur : ∀ w, w < c.W → T w = turns ρ a w
+  tb : ∀ w, w < c.W → T w ≤ bOf c w
+  live : livePairs c h0 ++ liveFrom c ρ a = liveFrom c 0 0
+
+theorem base_MidI (c : Cfg) (s : State) (K a ρ : Nat) (T : Nat → Nat) (h0 : List Nat) (hB : Base c s K a T)
+    (hG : BaseG c h0 ρ a T) (hK : h0.length = K) : MidI c s ⟨h0, ρ, T, T⟩ none := by
+  have hup : ∀ w, w < c.W → up s w = true := fun w hw => up_replicate' c.W w _ hB.st hw
+  constructor
+  · rw [hB.se]; exact hK
+  · rw [hB.cy]; exact hG.alt
+  · exact hG.own
+  · intro w hw _; rw [hB.cy]; simp only; rw [hG.cnt w hw, hG.tur w hw]
+  · intro w hw hd; rw [hup w hw] at hd; cases hd
+  · rw [hB.cy]; exact hG.live
+  · rw [hB.rc, hB.inf, hB.se]; rfl
+  · rw [hB.inf]; trivial
+  · intro i w hi hw
+    left
+    have hwW := hG.own i w hw
+    have := count_take_succ_le h0 w i hw
+    simp only
+    rw [hG.cnt w hwW] at this
+    omega
+  · intro w hw; simp only [hup w hw, true_iff]; exact hG.tb w hw
+  · intro w hw; have := hG.tb w hw; simp only; omega
+  · rw [hB.st]; simp
+  · exact hB.wl
+  · intro w k hk
+    have hwW : w < c.W := by rw [← hB.wl]; exact (List.getElem?_eq_some_iff.mp hk).1
+    obtain ⟨h1, h2, h3⟩ := hB.wk w k hk
+    have := hG.tb w hwW
+    refine ⟨by rw [h1]; trivial, by rw [h1]; simp only [taskIdxs, List.length_nil]; rw [hG.cnt w hwW]; rfl, ?_, ?_,
+      by rw [h1]; simp⟩
+    · rw [h2]; simp only; omega
+    · rw [h3]; simp only; constructor
+      · intro hh; cases hh
+      · intro hh; omega
+  · intro w hw
+    have := hG.tb w hw
+    rw [hB.rq]
+    exact ⟨trivial, by simp only [List.filter_nil, List.length_nil]; omega⟩
+  · intro r hr; rw [hB.rq] at hr; cases hr
+
+theorem J_of_JX (c : Cfg) (e0 : Nat → Bool) (δ : Nat) (s : State) (g : Ghost) (dl : List Nat)
+    (hJ : JX c e0 δ s g dl) (hph : s.phase = .idle) (hsd : s.shutdown = false) (hna : Obs.assertion ∉ s.obs) :
+    J c e0 δ s :=
+  ⟨InvI_of_WI c s g hJ.wi (by rw [hph]; intro k; simp) hsd (by rw [hph]; intro hf; cases hf), hna,
+    FS_of_JX c e0 δ s g dl hJ, fun _ => ⟨g, dl, hJ⟩⟩
+
+/-- The constructor's priming loop from a quiescent start state establishes the joint invariant. -/
+theorem base_J (c : Cfg) (e0 : Nat → Bool) (δ : Nat) (s : State) (K a ρ : Nat) (T : Nat → Nat) (h0 : List Nat)
+    (hit : c.iterable = true) (hio : c.inOrder = true) (hP : 0 < c.P * c.W) (hB : Base c s K a T)
+    (hG : BaseG c h0 ρ a T) (hK : h0.length = K) (ho : ObsRel (dataItems c h0) (taskObs s.obs))
+    (hns : Obs.stop ∉ s.obs) (hna : Obs.assertion ∉ s.obs)
+    (hks : KS c e0 δ s.wsnaps s.snap s.numYielded (livePairs c h0)) :
+    J c e0 δ (prime c (c.P * c.W) s) := by
+  have hm := base_MidI c s K a ρ T h0 hB hG hK
+  have htk : h0.take s.rcvdIdx = h0 := by rw [hB.rc, ← hK, List.take_length]
+  have hsw : SWk c s (zipZ s.info (List.replicate K 0)) none 0 := by
+    rw [hB.inf]
+    refine ⟨by rw [hB.inf]; rfl, by rw [hB.inf]; trivial, by rw [hB.inf, hB.rc, hB.se]; rfl, trivial,
+      by simp [zipZ, cntZ], Nat.zero_le _, by rw [hB.ms]; exact List.Pairwise.nil, ?_, ?_⟩
+    · intro x hx; rw [hB.ms] at hx; cases hx
+    · intro z hz; cases hz
+  have hkf : KF c s h0 (List.replicate K 0) := by
+    refine ⟨?_, ?_, ?_⟩
+    · intro w k hk i p sn hmem
+      rw [(hB.wk w k hk).1] at hmem; cases hmem
+    · intro r hr; rw [hB.rq] at hr; cases hr
+    · intro e he; rw [hB.inf] at he; cases he
+  obtain ⟨n, hn⟩ : ∃ n, c.P * c.W = n + 1 := ⟨c.P * c.W - 1, by omega⟩
+  rw [hn]
+  have hpe : prime c (n + 1) s = prime c n (tryPut c s) := rfl
+  rw [hpe]
+  obtain ⟨g1, dl1, h1⟩ := tryPut_J0 c e0 δ s ⟨h0, ρ, T, T⟩ (List.replicate K 0) hit hio hm
+    (by simp only [htk]; exact ho) hsw (by rw [hB.se]; simp) hkf (by simp only [htk]; exact hks) hns
+    (by rw [hB.inf]; simp [zipZ, cntZ]; rw [Nat.mul_comm]; omega)
+  have hc := tryPut_sameCore c s
+  have hs := tryPut_sendIdx_le c s
+  obtain ⟨g2, dl2, h2⟩ := prime_J c e0 δ n (tryPut c s) g1 dl1 hit hio h1 (by rw [hc.obs]; exact hns)
+    (by rw [hc.rcvdIdx, hB.rc]; rw [hB.se] at hs; rw [Nat.mul_comm] at hn; omega)
+  have hc2 := prime_sameCore c n (tryPut c s)
+  exact J_of_JX c e0 δ _ g2 dl2 h2 (by rw [hc2.phase, hc.phase]; exact hB.ph)
+    (by rw [hc2.shutdown, hc.shutdown]; exact hB.sd) (by rw [hc2.obs, hc.obs]; exact hna)
 
 end TDV.MPRI
